@@ -308,6 +308,12 @@ func (c *client) recoverLoss(connLost bool) {
 				// the replaced connection are no longer awaited
 				c.reconnectCount = 0
 				c.setLastKeepaliveId(0)
+				// like a freshly dialled conn: the peer gets the whole
+				// keepalive timeout to answer its first heartbeat. The
+				// time of the last answer on the replaced conn said
+				// nothing about this one, and a peer slower than one
+				// keepalive interval was recycled again and again.
+				c.setLastPongAt(time.Now())
 				if c.afterReconnected != nil {
 					c.afterReconnected()
 				}
